@@ -112,3 +112,66 @@ func c05KeyChange(e *Env, pool *hx.Pool) {
 		}()
 	}
 }
+
+// c05TypeKept: a rebuild forced by a change of ANOTHER column keeps the declared type of the untouched columns as
+// written - also types Atlas does not know (several words, arguments): the affinity of a column decides how
+// SQLite stores '007' or '1e3', so every value is compared in its stored form (`quote(col)`) before and after.
+func c05TypeKept(e *Env) {
+	ctx := context.Background()
+	for ci, ty := range []string{"NATIONAL CHARACTER VARYING(20)", "VARCHAR2 (20)", "MY TYPE", "Point3D", "text", "varying character(9)", "STRING"} {
+		db, err := sql.Open("sqlite3", fmt.Sprintf("file:c05ty%d?mode=memory&cache=shared", ci))
+		if err != nil {
+			continue
+		}
+		func() {
+			defer db.Close()
+			if _, err := db.Exec(fmt.Sprintf("CREATE TABLE t (id integer PRIMARY KEY, v %s, gone integer)", ty)); err != nil {
+				return
+			}
+			if _, err := db.Exec("INSERT INTO t VALUES (1, '007', 1), (2, '1e3', 2), (3, ' 42 ', 3), (4, 'x', 4), (5, NULL, 5)"); err != nil {
+				return
+			}
+			stored := func() string {
+				rows, err := db.Query("SELECT id, quote(v), typeof(v) FROM t ORDER BY id")
+				if err != nil {
+					return "error: " + err.Error()
+				}
+				defer rows.Close()
+				var out []string
+				for rows.Next() {
+					var id int
+					var q, ty string
+					rows.Scan(&id, &q, &ty)
+					out = append(out, fmt.Sprintf("%d:%s:%s", id, q, ty))
+				}
+				return strings.Join(out, " ")
+			}
+			before := stored()
+			id := fmt.Sprintf("rebuild that drops another column; untouched column declared %q", ty)
+			rep := map[string]any{"case": id}
+			e.Res.Count("c05type:"+ty, true, "type-kept-rebuild")
+			drv, err := sqlite.Open(db)
+			if err != nil {
+				return
+			}
+			cur, err1 := drv.InspectSchema(ctx, "main", nil)
+			des, err2 := drv.InspectSchema(ctx, "main", nil)
+			if err1 != nil || err2 != nil {
+				return
+			}
+			dt, _ := des.Table("t")
+			dt.Columns = dt.Columns[:2]
+			changes, err := drv.SchemaDiff(cur, des)
+			if err != nil || len(changes) == 0 {
+				return
+			}
+			if aerr := drv.ApplyChanges(ctx, changes); aerr != nil {
+				e.Res.Note("c05 type-kept: apply fails for %q: %v", ty, aerr)
+				return
+			}
+			if after := stored(); after != before {
+				e.Res.Violate("failing-input", "values-rewritten-by-rebuild", fmt.Sprintf("%s: the stored values changed: before [%s], after [%s]", id, before, after), "Props.C05 values_preserved (declared type kept)", rep)
+			}
+		}()
+	}
+}
